@@ -174,11 +174,17 @@ def server_audit(chk, n_requests):
                 base = prefix.rstrip("/") + "/user/calendars/calendar/"
                 srv.request("PUT", base + "a.ics", {"Content-Type": "text/calendar"}, vevent("ok1"))
                 before = {k: v for k, v in snapshot(scratch).items() if not k.startswith(root)}
-                for i in range(n_requests):
+                # first, every "way out of an existing collection" with every writing method; then random targets
+                fixed = [(m_, prefix.rstrip("/") + c_ + e_) for e_ in EVIL_LAST
+                         for (m_, c_) in (("PUT", "/user/calendars/calendar/"), ("PUT", "/user/contacts/addressbook/"),
+                                          ("DELETE", "/user/calendars/calendar/"), ("MKCALENDAR", "/user/calendars/"))]
+                for i in range(len(fixed) + n_requests):
                     method = chk.rng.choice(METHODS)
                     if method == "OPTIONS" and chk.rng.random() < 0.7:
                         method = chk.rng.choice(["MKCOL", "MKCALENDAR", "DELETE", "PUT"])
                     target = gen_target(chk.rng, prefix)
+                    if i < len(fixed):
+                        method, target = fixed[i]
                     if method == "POST" and chk.rng.random() < 0.6:
                         # add-member on a collection that exists: the server picks the member's name
                         target = prefix.rstrip("/") + chk.rng.choice(["/user/calendars/calendar/", "/user/contacts/addressbook/",
